@@ -31,7 +31,7 @@ ASSUMPTIONS = ["mtime is advanced by whole seconds through os.utime (logical clo
                "CRC32 collisions between different generated sources are not sampled"]
 REQUIRED_MONITORS = ["evaluates_current_sources", "source_to_library_injective", "cache_listing_is_image"]
 REQUIRED_BUCKETS = {"quick": ["op:edit_py_const", "op:edit_py_default", "op:edit_inc", "op:edit_template", "op:dtype",
-                              "op:revert", "op:edit_source_list", "loader:core", "loader:sasview", "eval:same_process", "eval:fresh_process", "revert_then_same_process",
+                              "op:revert", "op:edit_source_list", "op:load_with_other_integration_size", "loader:core", "loader:sasview", "loader:composite", "eval:same_process", "eval:fresh_process", "revert_then_same_process",
                               "default_only_edit_then_same_process", "clock:past", "clock:future", "clock:near-now", "clock:subsecond"]}
 REQUIRED_BUCKETS["thorough"] = REQUIRED_BUCKETS["quick"]
 HERE = os.path.dirname(os.path.abspath(__file__))
@@ -46,8 +46,9 @@ def gen_cases(tier, seed):
 def py_text(K, D, S=1):
     return ('r"""cache probe"""\nfrom numpy import inf\nname = "rtm_cache_probe"\ntitle = "probe"\ndescription = "probe"\n'
             'category = "shape:sphere"\nparameters = [["p_default", "", %d, [-inf, inf], "", "default carries a version"]]\n'
-            'source = ["%s"]\nIq = """\n    if (q < 0.15) return %d.0;\n    if (q < 0.25) return inc_version();\n'
-            '    if (q < 0.35) return RTM_TEMPLATE_VERSION;\n    if (q < 0.45) return FLOAT_SIZE;\n    return p_default;\n"""\n'
+            'source = ["lib/gauss76.c", "%s"]\nIq = """\n    if (q < 0.15) return %d.0;\n    if (q < 0.25) return inc_version();\n'
+            '    if (q < 0.35) return RTM_TEMPLATE_VERSION;\n    if (q < 0.45) return FLOAT_SIZE;\n    if (q < 0.55) return p_default;\n'
+            '    return GAUSS_N;\n"""\n'
             % (D, "m_inc.c" if S == 1 else "m_inc2.c", K))
 
 
@@ -119,8 +120,8 @@ class World:
                                        stdin=subprocess.PIPE, stdout=subprocess.PIPE, stderr=subprocess.PIPE, text=True,
                                        cwd=self.root)
 
-    def ask(self, proc, dtype, via="core"):
-        proc.stdin.write(json.dumps({"op": "eval", "dtype": dtype, "via": via}) + "\n")
+    def ask(self, proc, dtype, via="core", ngauss=None):
+        proc.stdin.write(json.dumps({"op": "eval", "dtype": dtype, "via": via, "ngauss": ngauss}) + "\n")
         proc.stdin.flush()
         while True:
             line = proc.stdout.readline()
@@ -129,15 +130,15 @@ class World:
             if line.startswith("RTM17 "):
                 return json.loads(line[6:])
 
-    def eval_same(self, dtype, via="core"):
+    def eval_same(self, dtype, via="core", ngauss=None):
         if self.server is None or self.server.poll() is not None:
             self.start_server()
-        return self.ask(self.server, dtype, via)
+        return self.ask(self.server, dtype, via, ngauss)
 
-    def eval_fresh(self, dtype, via="core"):
+    def eval_fresh(self, dtype, via="core", ngauss=None):
         p = subprocess.Popen([core.PY, os.path.join(HERE, "_c17_proc.py"), self.files["py"]], env=self.env(),
                              stdin=subprocess.PIPE, stdout=subprocess.PIPE, stderr=subprocess.PIPE, text=True, cwd=self.root)
-        r = self.ask(p, dtype, via)
+        r = self.ask(p, dtype, via, ngauss)
         try:
             p.stdin.write('{"op": "quit"}\n')
             p.stdin.flush()
@@ -160,16 +161,22 @@ def gen_history(rng, h):
     ops = [["eval", "same"]]
     n = int(rng.integers(6, 13))
     kinds = ["edit_py_const", "edit_py_default", "edit_inc", "edit_template", "dtype", "revert", "edit_source_list",
-             "edit_inc"]
+             "edit_inc", "other_size"]
     for _ in range(n):
         k = kinds[int(rng.integers(len(kinds)))]
+        if k == "other_size":
+            # a load that requests another Gauss rule size, then an ordinary load
+            ops.append(["eval_size", "same"])
+            ops.append(["eval", "same"])
+            continue
         ops.append([k, None])
         ops.append(["eval", "same" if rng.random() < 0.6 else "fresh"])
         if rng.random() < 0.3:
             ops.append(["eval", "fresh" if ops[-1][1] == "same" else "same"])
     # constructive tails
     # the list of included C files changes and changes back; a C edit after a definition-file edit that kept the list
-    ops += [["edit_source_list", None], ["eval", "same"], ["edit_inc", None], ["eval", "same"], ["edit_source_list", None],
+    ops += [["eval_size", "same"], ["eval", "same"], ["eval_size", "same"], ["edit_py_const", None], ["eval", "same"],
+            ["edit_source_list", None], ["eval", "same"], ["edit_inc", None], ["eval", "same"], ["edit_source_list", None],
             ["eval", "same"], ["edit_py_const", None], ["eval", "same"], ["edit_inc", None], ["eval", "same"], ["eval", "fresh"]]
     if h % 2 == 0:
         ops += [["edit_inc", None], ["eval", "same"], ["edit_py_default", None], ["eval", "same"], ["revert", "inc"],
@@ -234,11 +241,15 @@ def run_case(case, rec):
                     reverts += 1
                     last_edit = "revert"
                 op = "revert"
-            if op != "eval":
+            if op not in ("eval", "eval_size"):
                 rec.bucket("op:" + op)
                 continue
-            via = "sasview" if (step + case["h"]) % 3 == 0 else "core"
-            r = w.eval_same(dtype, via) if arg == "same" else w.eval_fresh(dtype, via)
+            ngauss = None
+            via = "sasview" if (step + case["h"]) % 3 == 0 else "composite" if (step + case["h"]) % 7 == 1 else "core"
+            if op == "eval_size":
+                ngauss, via = [20, 150][step % 2], "core"
+                rec.bucket("op:load_with_other_integration_size")
+            r = w.eval_same(dtype, via, ngauss) if arg == "same" else w.eval_fresh(dtype, via, ngauss)
             rec.bucket("eval:%s_process" % arg, "loader:" + via)
             if arg == "same" and last_edit == "revert":
                 rec.bucket("revert_then_same_process")
@@ -246,23 +257,23 @@ def run_case(case, rec):
                 rec.bucket("default_only_edit_then_same_process")
             s = w.state
             expected = [float(s["K"]), float(s["V"] if s["S"] == 1 else s["V2"]), float(s["T"]),
-                        FSIZE[dtype] if via == "core" else 8.0, float(s["D"])]
+                        FSIZE[dtype] if via in ("core", "composite") else 8.0, float(s["D"]), float(ngauss or 76)]
             ctx = {"step": step, "history": ops[:step + 1][-10:], "dtype": dtype, "process": arg,
-                   "expected_versions": dict(zip(["py_const", "include", "template", "float_size", "py_default"], expected))}
+                   "expected_versions": dict(zip(["py_const", "include", "template", "float_size", "py_default", "gauss_n"], expected))}
             if "error" in r:
                 rec.check("evaluates_current_sources", False, dict(ctx, error=r["error"], tb=r.get("tb")))
                 continue
             got = r["values"]
             ok = (got == expected)
             key = None
-            if not ok and via == "sasview" and arg == "same" and len(got) == 5 and \
+            if not ok and via == "sasview" and arg == "same" and len(got) == 6 and \
                     [g for j, g in enumerate(got) if j != 2] == [e for j, e in enumerate(expected) if j != 2] \
                     and got[2] in {float(hh["T"]) for hh in w.history["tpl"][:-1]}:
                 # listed finding: only the template version is stale, only through the SasView loader, only in the
                 # process that had the model class already
                 key = "C17/sasview-loader-keeps-compiled-model-across-template-edits"
             rec.check("evaluates_current_sources", ok,
-                      None if ok else dict(ctx, loader=via, decoded=dict(zip(["py_const", "include", "template", "float_size", "py_default"], got))),
+                      None if ok else dict(ctx, loader=via, decoded=dict(zip(["py_const", "include", "template", "float_size", "py_default", "gauss_n"], got))),
                       key=key)
             if r.get("package") and not r["package"].startswith(w.pkg):
                 rec.inconclusive("participant imported sasmodels from %s" % r["package"])
